@@ -313,7 +313,9 @@ def props_of(op, field):
     """which properties a mismatch of `field` after a step `op` speaks against"""
     base = set(ATTR[op])
     if field == 'range':
-        return {'C07'} if op in ('rfi', 'rfi_all', 'mef') else base
+        # limits that no longer follow the data speak against C07 after ANY step (a copy or pickle of a converted sample
+        # is a sample, too)
+        return {'C07'} if op in ('rfi', 'rfi_all', 'mef') else base | {'C07'}
     if field == 'meta':
         return base | {'C04'} if op in ('pick', 'slicec', 'rows') else base
     if field == 'name':
